@@ -59,6 +59,7 @@ type shimBConn struct {
 	notify chan struct{} // replaced on every change
 	closed chan struct{} // closed when the read loop ends (peer closed / error)
 	pushed int64         // push-only mode: messages written so far
+	drop   chan struct{} // stalled mode: closed by the harness to make the backend drop the TCP connection
 	cerr   string
 }
 
@@ -102,7 +103,7 @@ func (b *shimBackend) serve(w http.ResponseWriter, r *http.Request) {
 	}
 	token := r.Header.Get("X-Verif-Conn")
 	c := &shimBConn{token: token, uri: r.RequestURI, host: r.Host, hdr: r.Header.Clone(),
-		ready: make(chan struct{}), notify: make(chan struct{}), closed: make(chan struct{})}
+		ready: make(chan struct{}), notify: make(chan struct{}), closed: make(chan struct{}), drop: make(chan struct{})}
 	b.mu.Lock()
 	b.conns[token] = c
 	b.mu.Unlock()
@@ -121,6 +122,10 @@ func (b *shimBackend) serve(w http.ResponseWriter, r *http.Request) {
 		}
 	}
 	close(c.ready)
+	if r.Header.Get("X-Verif-Stall") != "" {
+		c.stall()
+		return
+	}
 	if ms, _ := strconv.Atoi(r.Header.Get("X-Verif-Noread")); ms > 0 {
 		c.pushOnly(time.Duration(ms) * time.Millisecond)
 		return
@@ -193,6 +198,38 @@ func (c *shimBConn) settled(undelivered int) bool {
 		return false
 	}
 	return c.waitClosed(2 * time.Second)
+}
+
+// stall is the hung backend: after the upgrade it neither reads nor writes
+// (with a small receive buffer, so a large client message parks the agent's
+// writer in its TCP write) until the harness tells it to drop the
+// connection, which it does with a TCP reset.
+func (c *shimBConn) stall() {
+	tc, _ := c.ws.UnderlyingConn().(*net.TCPConn)
+	if tc != nil {
+		tc.SetReadBuffer(2048)
+	}
+	select {
+	case <-c.drop:
+	case <-time.After(120 * time.Second):
+	}
+	if tc != nil {
+		tc.SetLinger(0)
+	}
+	c.mu.Lock()
+	c.cerr = "harness: stalled backend dropped the connection"
+	c.mu.Unlock()
+	c.ws.Close()
+	close(c.closed)
+}
+
+// dropNow makes a stalled backend drop its TCP connection.
+func (c *shimBConn) dropNow() {
+	select {
+	case <-c.drop:
+	default:
+		close(c.drop)
+	}
 }
 
 // pushOnly is the busy / push-only backend: it never reads from the
